@@ -212,6 +212,26 @@ func TestC06(t *testing.T) {
 	rec := ev.New("C06", "exploration")
 	rec.Rule = "rapid draws (lzma.WriterConfig passing Verify: lc 0-8, lp 0-4, pb 0-4, DictCap, BufSize, matcher; termination marker / Size=len / Size=len+marker; contract cases Size=len+d and Size=len-d), data recipe incl. empty, partition, sink with or without WriteByte; oracle: round trip through lzma.Reader with clean EOF, a model of the size contract says which Write returns (remaining, error) and that Close fails when fewer bytes were written; whenever Close returns nil the header's size field equals the bytes accepted; non-trivial = n >= 1 and (lc+lp > 4 or non-default termination or BinaryTree or multi-write); distinct = hash of the case"
 	rec.Assumptions = []string{"BinaryTree: run-like segments <= 12000 bytes"}
+	// volume: events of the range coder that need a particular state of its
+	// 33-bit accumulator (a carry into a pending 0xFF byte, ...) occur once in
+	// 2^28 .. 2^30 output bytes. The classic format has no stored chunks, so
+	// incompressible input turns into as many coded bytes: every shard writes
+	// and reads back one long pseudo-random input (the seed varies with shard
+	// and VERIF_SEED). A matter of probability in the quick tier (8 x 24 MiB),
+	// likely in the thorough tier (14 x 128 MiB).
+	enumerate(t, rec, checkC06, func(try func(caseC06) bool) {
+		n := 24 << 20
+		if ev.Thorough() {
+			n = 128 << 20
+		}
+		c := caseC06{Cfg: gen.Cfg{DefProps: true, DictCap: 65536, EOSMarker: true}, Mode: "marker", ByteSink: true, Part: gen.Partition{Kind: "cuts", Lens: []int{1 << 20, 3 << 20}},
+			Data: gen.Recipe{{Kind: "random", Len: n, Seed: 7700 + uint64(rec.Shard) + 1000*uint64(rec.Seed)}}}
+		rec.Class("volume_case")
+		try(c)
+	})
+	if t.Failed() {
+		return
+	}
 	drive(t, rec, drawC06, checkC06)
 }
 
